@@ -81,6 +81,54 @@ func countAttack(g *hx.Gen, s wire.Sample, budget int) {
 	}
 }
 
+// wrapAttack: counts whose product with an element size wraps around the width of the count — a
+// size check computed as `count*size` in unsigned arithmetic lets them through, the `make` sized by the
+// count then panics (len out of range).  For every element size 1…128: ceil(2^w / size) and its neighbours,
+// in the fixed-width count fields of the count-limited p2p readers and as a var-int in front of nothing.
+func wrapAttack(g *hx.Gen) {
+	r := g.R
+	le := func(v uint64, w int) []byte {
+		b := make([]byte, w)
+		for i := 0; i < w; i++ {
+			b[i] = byte(v >> (8 * uint(i)))
+		}
+		return b
+	}
+	hdr := wire.Ser(wire.GenHeader(r))
+	for size := uint64(1); size <= 128; size++ {
+		for _, d := range []uint64{0, 1, 7} {
+			c64 := ^uint64(0)/size + 1 + d
+			c32 := (uint64(1)<<32-1)/size + 1 + d
+			tail := r.Bytes(r.Intn(3) * 21)
+			emit(g, "dec addr 0", append(le(c64, 8), tail...))
+			emit(g, "dec inv 0", append(le(c32, 4), tail...))
+			emit(g, "dec getblocks 0", append(append(le(uint64(r.Intn(4)), 4), le(c32, 4)...), tail...))
+			emit(g, "dec merkleblock 0", append(append(append([]byte(nil), hdr...), 1, 0, 0, 0), append(le(c32, 4), tail...)...))
+			if d == 0 && size%8 == 1 {
+				v := append([]byte{0xff}, le(c64, 8)...)
+				emit(g, "dec confirm 0", v)
+				emit(g, "dec inactivearbitrators 0", v)
+			}
+		}
+	}
+}
+
+// blockRows: values of the on-disk block index bucket (84-byte header without aux-pow + status byte):
+// a good row, every prefix of it (torn write), one byte more, a changed byte.
+func blockRows(g *hx.Gen) {
+	r := g.R
+	for i := 0; i < g.N(3, 12); i++ {
+		w := new(bytes.Buffer)
+		wire.GenHeader(r).SerializeNoAux(w)
+		row := append(w.Bytes(), r.Byte())
+		for k := 0; k <= len(row); k++ {
+			emit(g, "dec blockrow 0", row[:k])
+		}
+		emit(g, "dec blockrow 0", append(append([]byte(nil), row...), r.Byte()))
+		emit(g, "dec blockrow 0", wire.Mutate(r, row))
+	}
+}
+
 func gen(g *hx.Gen) {
 	r := g.R
 	n := g.N(1800, 30000)
@@ -100,6 +148,8 @@ func gen(g *hx.Gen) {
 		b := append(append([]byte(nil), h...), 1, 0, 0, 0, byte(nh), byte(nh>>8), byte(nh>>16), byte(nh>>24))
 		emit(g, "dec merkleblock 0", append(b, r.Bytes(r.Intn(40))...))
 	}
+	wrapAttack(g)
+	blockRows(g)
 	genMsg(g)
 	genDmsg(g)
 	// every prefix of a few valid encodings (each list position is hit by a truncation)
